@@ -2039,7 +2039,12 @@ public:
     SBEPP_CPP14_CONSTEXPR random_access_iterator&
         operator+=(difference_type n) noexcept
     {
-        ptr += n * block_length;
+        // compute the offset in `std::ptrdiff_t`, otherwise the product is
+        // evaluated in the common type of `difference_type` and
+        // `BlockLengthType` which can be narrower than a pointer and/or
+        // unsigned (negative `n` is then converted to a huge positive value)
+        ptr += static_cast<std::ptrdiff_t>(n)
+               * static_cast<std::ptrdiff_t>(block_length);
         index += n;
         return *this;
     }
@@ -2391,7 +2396,16 @@ public:
     SBEPP_CPP14_CONSTEXPR reference operator[](size_type pos) const noexcept
     {
         SBEPP_ASSERT(pos < size());
-        return *(begin() + pos);
+        // not `*(begin() + pos)`: `pos` can be greater than the maximum of
+        // `difference_type`
+        auto dimension = (*this)(get_header_tag{});
+        const auto block_length = dimension.blockLength().value();
+        return *iterator{
+            (*this)(addressof_tag{}) + sbepp::size_bytes(dimension)
+                + static_cast<std::size_t>(pos) * block_length,
+            block_length,
+            pos,
+            (*this)(end_ptr_tag{})};
     }
 
     //! @brief Returns the first entry
